@@ -122,4 +122,6 @@ VARIANTS = [
          old="                f\"{fname.name}.tmp-{os.getpid()}-{threading.get_ident()}\"\n", new="                f\"{fname.name}.tmp-{os.getpid()}\"\n", expect=("C15-ATOMIC", "own-temp")),
     dict(name="twin: temp sibling named with a random token", kind="twin", file=U,
          old="                f\"{fname.name}.tmp-{os.getpid()}-{threading.get_ident()}\"\n", new="                f\"{fname.name}.tmp-{__import__('uuid').uuid4().hex}\"\n"),
+    dict(name="seed C15_12: in-place copy onto the entry when the rename is refused", kind="break", file=U,
+         old="            os.replace(tmp, fname)\n", new="            try:\n                os.replace(tmp, fname)\n            except PermissionError:\n                import shutil\n                shutil.copyfile(tmp, fname)\n                os.unlink(tmp)\n", expect=("C15-ATOMIC", "fname")),
 ]
